@@ -39,6 +39,11 @@ def units_for(prop):
     own = [u for u in decoders.CONTRACTS if u["tag"] == prop or prop in u.get("also", [])]
     mods = {u["module"] for u in own} | {"coco.util"}
     shared = [u for u in decoders.CONTRACTS if u["tag"] == "*" and u["module"] in mods]
+    only = os.environ.get("VERIF_ONLY_UNITS")      # development aid: substring filter on unit names
+    if only:
+        own = [u for u in own if only in u["name"]]
+    # longest units first: their path trees are the deepest, start them before the small ones fill the pool
+    own.sort(key=lambda u: -{"coco.maxtoppm.convert": 3, "coco.cm3toppm.convert": 2, "coco.mgetoppm.convert": 1}.get(u["name"], 0))
     return own + shared
 
 
@@ -213,6 +218,31 @@ def judge(prop, unit, inp):
     out = base64.b64decode(real.get("out_b64", ""))
     det["real"]["out_len"] = len(out)
     ok_return = real["outcome"] == "return" and real.get("result") is not False
+    if tool == "veftopng":
+        png = real.get("png")
+        det["real"]["png"] = png
+        if real["outcome"] == "return" and png is not None:
+            if "error" in png:
+                det["mismatch"] = "success reported but the PNG cannot be read back: %s" % png["error"]
+                return True, det
+            if len(data) > 1 and data[1] == 4:
+                det["note"] = "type 5 (640x200x2): outside the claim (fails loudly inside Pillow)"
+                return False, det
+            nominal = 18 + (16000 if len(data) > 1 and data[1] == 3 else 32000)
+            if data[:1] != b"\x80" and len(data) != nominal:
+                det["note"] = "recorded known finding KF-C19-VEF-image-data-of-the-wrong-length"
+                return False, det
+            if png["samples"] != png["width"] * png["height"]:
+                det["mismatch"] = "PNG announces %dx%d but holds %d samples" % (png["width"], png["height"], png["samples"])
+                return data[:1] != b"\x80", det      # squashed files with short records: recorded finding
+            want_w = 640 if data[1] == 1 else 320
+            if prop in ("C16", "C18") and (png["width"], png["height"]) != ((640, 400) if want_w == 640 else (320, 200)):
+                det["mismatch"] = "picture is %dx%d, the type byte dictates %s" % (png["width"], png["height"], (640, 400) if want_w == 640 else (320, 200))
+                return True, det
+        elif prop in ("C16", "C18") and len(data) == 18 + (16000 if len(data) > 1 and data[1] == 3 else 32000) and data[0] != 128 and data[1] in (0, 1, 3) and all(b < 64 for b in data[2:18]):
+            det["mismatch"] = "real decoder failed on a well-formed uncompressed VEF"
+            return True, det
+        return False, det
     if tool == "unsquash" and prop == "C19":
         if real["outcome"] == "return":
             got = base64.b64decode(real.get("result_b64", ""))
